@@ -257,8 +257,8 @@ pub fn run_c10(tier: Tier, seed: u64) -> i32 {
         "for distributed statements (scatter and gather shapes, 2..5 participants) the fault-free distributed answer is recorded, then every remote shard in turn gets each fault: transport error, HTTP-style error, empty payload, a worker whose table copy differs (digest mismatch), a flipped byte at sampled offsets, and the real IPC payload TRUNCATED AT EVERY BYTE OFFSET (payloads <= 4 KiB; otherwise 256 sampled offsets incl. the last 64 bytes); the query must fail, or return exactly the fault-free answer (a masked fault); anything else is a partial answer. distinct = distinct (statement shape, fault kind, shard) triples",
     );
     let scratch = Scratch::new("c10");
-    let n_dbs = tier.pick(8, 120);
-    let per_db = tier.pick(4, 8);
+    let n_dbs = tier.pick(6, 120);
+    let per_db = tier.pick(3, 8);
     let seeds: Vec<u64> = (0..n_dbs).map(|i| seed.wrapping_mul(3_000_017).wrapping_add(i as u64)).collect();
     let sp = scratch.path().to_path_buf();
     let quick = tier == Tier::Quick;
